@@ -10,7 +10,8 @@ correspondence: E-CONC — harness/c09.cpp runs the real Epoch (Accessor and thr
                 1 writer, 1 reclaimer) under VRT; every atomic-level trace is replayed in lock-step by
                 lean/Drivers/C09.lean on the model restricted to "read the latest message", the model's view
                 bookkeeping decides the hand-over / reclaim contracts; oracle on the real code: dereference of
-                a freed cell, slot still published after unlock, low_water_mark != MAX at quiescence.
+                a freed cell, slot still published after unlock, low_water_mark != MAX at quiescence; the same
+                programs also run under VRT_MEM=view (stale reads per the view model) as an oracle-only pass.
 """
 from vlib.core import *
 
@@ -51,8 +52,8 @@ def _nontrivial(lines):
                     kinds.add("create-vs-scan")
             elif w[2] == "ret" and w[3] == "lwm":
                 in_scan[t] = False
-            elif w[2] == "call" and w[3] == "lock":
-                pass
+        elif w[1] == "cas" and w[2] == "tbl":
+            kinds.add("table-growth")
     return kinds
 
 
@@ -64,7 +65,7 @@ def _canon(lines):
             continue
         w = l.split()
         if len(w) >= 3 and w[2] == "tbl":
-            l = " ".join(w[:4])
+            l = " ".join(w[:4] + w[-2:-1]) if w[1] == "cas" else " ".join(w[:4])
         out.append(l)
     return "\n".join(out)
 
@@ -74,6 +75,10 @@ def _classify(ctx, mode, env, runs, lockstep, dist, distinct, samples):
         dist["verdicts"][r["verdict"]] = dist["verdicts"].get(r["verdict"], 0) + 1
         dist["max_trace"] = max(dist["max_trace"], len(r["lines"]))
         kinds = _nontrivial(r["lines"])
+        for l in r["lines"][-3:]:
+            m = re.search(r" ev stats .* stale (\d+)", l)
+            if m:
+                dist["stale_reads"] += int(m.group(1))
         for k in kinds:
             dist["mechanism"][k] = dist["mechanism"].get(k, 0) + 1
         if kinds:
@@ -82,7 +87,7 @@ def _classify(ctx, mode, env, runs, lockstep, dist, distinct, samples):
         if r["oracle"]:
             dist["oracle"] += 1
             kind = r["oracle"][0].split("ORACLE", 1)[1].split()[0]
-            ctx.failing_input("oracle:%s:%s" % (mode.replace("grow", ""), kind), text)
+            ctx.failing_input("oracle:%s:%s" % (mode, kind), text)
         elif r["races"]:
             ctx.failing_input("race:%s" % mode, text)
         elif r["verdict"] != "ok":
@@ -122,7 +127,8 @@ def run(ctx):
     if ctx.broken:
         n *= 6     # an obligation broke: look harder for a concrete failing schedule
     seed0 = ctx.seed * 1000003
-    dist = {"modes": {}, "verdicts": {}, "mechanism": {}, "replay_ok": 0, "replay_diverge": 0, "oracle": 0, "max_trace": 0}
+    dist = {"modes": {}, "verdicts": {}, "mechanism": {}, "replay_ok": 0, "replay_diverge": 0, "oracle": 0, "max_trace": 0,
+            "stale_reads": 0}
     distinct = set()
     samples = []
     # corpus first: fixed interesting schedules
@@ -131,13 +137,17 @@ def run(ctx):
         if not m:
             continue
         mode, seed, env = m.group(1), int(m.group(2)), eval(m.group(3))
-        runs = ctx.econc(exe, drv if not mode.endswith("grow") else None, [mode], seed, 1, env=env)
+        lockstep = env.get("VRT_MEM") != "view"
+        runs = ctx.econc(exe, drv if lockstep else None, [mode], seed, 1, env=env)
         dist["modes"]["corpus"] = dist["modes"].get("corpus", 0) + len(runs)
-        _classify(ctx, mode, env, runs, not mode.endswith("grow"), dist, distinct, samples)
+        _classify(ctx, mode, env, runs, lockstep, dist, distinct, samples)
+    view = {"VRT_MEM": "view"}
     plan = [("acc", n, True, {}), ("tls", n, True, {}),
             ("acc", n // 2, True, {"VRT_STRATEGY": "pct"}), ("tls", n // 2, True, {"VRT_STRATEGY": "pct"}),
             ("acc", n // 3, True, {"VRT_STICK": "0"}),
-            ("accgrow", n // 2, False, {}), ("tlsgrow", n // 2, False, {})]
+            # weak-memory simulation on the real code (stale reads allowed by the view model): oracle only
+            ("acc", n, False, view), ("tls", n, False, view),
+            ("acc", n // 2, False, dict(view, VRT_STALE="70")), ("tls", n // 2, False, dict(view, VRT_STALE="70", VRT_STICK="0"))]
     for mode, cnt, lockstep, env in plan:
         runs = ctx.econc(exe, drv if lockstep else None, [mode], seed0, cnt, env=env)
         key = mode + ("/" + ",".join("%s=%s" % kv for kv in sorted(env.items())) if env else "")
@@ -150,9 +160,10 @@ def run(ctx):
     ctx.cov["rule"] = ("one case = one seeded program (1-3 readers x 1-3 regions with nesting depth 1-3, two dereferences per region with a yield in between; "
                        "Accessor style: release / re-create, 1/4 of the regions handed over LOCKED to a helper thread through a release/acquire mailbox; "
                        "1 writer x 1-3 unlink+tick; reclaimer = the writer or a separate thread fed through a release/acquire channel; final scan at quiescence) "
-                       "under one seeded schedule (random with 5 stickiness levels, stickiness 0, or PCT); acc/tls: block table pre-reserved, lock-step replay; "
-                       "accgrow/tlsgrow: 2 slots per block, table grows during the run, oracle only. non-trivial = some low_water_mark() was held back by an open "
-                       "region, or an Accessor changed threads, or an id allocation overlapped a scan; distinct by trace hash (addresses removed)")
+                       "under one seeded schedule (random with 5 stickiness levels, stickiness 0, or PCT); per seed the block table is pre-reserved (4 slots per block) "
+                       "or starts empty with 2 slots per block (growth races with the scan); SC passes are replayed in lock-step, VRT_MEM=view passes (stale reads "
+                       "per the view model, 35% / 70% of the loads) are oracle only. non-trivial = some low_water_mark() was held back by an open region, or an "
+                       "Accessor changed threads, or an id allocation overlapped a scan, or the table grew; distinct by trace hash (addresses removed)")
     ctx.cov["samples"] = samples or [["<no sample>"]]
 
 
@@ -165,7 +176,7 @@ def replay(ctx, path):
     mode, seed, env = m.group(1), int(m.group(2)), eval(m.group(3))
     exe, log = build_vrt_exe("c09", SRCS, repo_cpp=REPO_CPP)
     drv = ctx.driver("drv_C09")
-    lockstep = not mode.endswith("grow") and env.get("VRT_MEM") != "view"
+    lockstep = env.get("VRT_MEM") != "view"
     runs = ctx.econc(exe, drv if lockstep else None, [mode], seed, 1, env=env)
     r = runs[0]
     print("\n".join(r["lines"]))
